@@ -23,6 +23,8 @@ def run(c):
     c.assumptions += [
         "crypto/tls + crypto/x509 (handshake, chain and name verification), the DNS resolver's AD bit and the MTA-STS fetcher are "
         "facts of the model (per-MX / per-domain data); verifyDANE enters only through its verdict on the record kind (C13 models it)",
+        "DNS world: the AD bit of an address answer for an aliased MX is the conjunction over the CNAME chain, and a TLSA RRset below a canonical "
+        "name whose address RRset is not authenticated is never reported authenticated",
         "idle-time limits of the pool and MTA-STS policy refresh over time are outside the model; connections are used sequentially "
         "(one message at a time through the target), as the queue does per message",
         "go-smtp server behaviour (REQUIRETLS advertised on TLS sessions only) is part of the scripted environment",
@@ -33,8 +35,10 @@ def run(c):
         "shuffled config block (mtasts, sts_preload, dane, dnssec, local_policy with every min level), override / relaxed_requiretls / reuse limit "
         "0,1,10; per-MX facts on scripted go-smtp servers at 127.0.0.1-3 (STARTTLS offered / stripped / handshake failure / command refused; "
         "generated chains: valid / unknown issuer / wrong name; REQUIRETLS on/off; down), loopback DNS server with AD control per RRset and TLSA "
-        "EE-match / TA-match / mismatch / unusable / SERVFAIL / none (+ delayed answers), injected MTA-STS fetcher (absent/none/testing/enforce x "
-        "listed); 1-2 MX candidates; plus every 1-3 message history over 5 message kinds on 6 fixed worlds; observation = per-recipient "
+        "EE-match / TA-match / mismatch / unusable / SERVFAIL / none (+ delayed answers); MX host names that are CNAME aliases (signed / unsigned "
+        "CNAME RRset, signed / unsigned canonical zone, CNAME-type query failing) with independent TLSA outcomes at the canonical and at the "
+        "initial name (RFC 7672 2.2.2: which base domain is consulted in which order); injected MTA-STS fetcher (absent/none/testing/enforce x "
+        "listed); 1-2 MX candidates; plus every 1-3 message history over 5 message kinds on 10 fixed worlds; observation = per-recipient "
         "ok/temp/perm and which server received DATA over TLS or plaintext, with or without the REQUIRETLS parameter, on a new or reused "
         "connection; distinct = distinct histories",
         explanation="theorems over all policy lists, fact assignments and histories of any length; model tied to connect.go / remote.go / security.go / "
